@@ -10,6 +10,12 @@ usage: python -m vf.checks.c15_child <mode> <json-args>
                        (server consistent: 'up to date' iff asked date >= its date; then a newer profile).
 The XDG_* environment selects the cache directory (shared between the crashing and the follow-up process).
 """
+import os as _os
+import sys as _sys
+
+if _os.environ.get("VF_NO_CET") == "1" and "xml.etree.ElementTree" not in _sys.modules:
+    _sys.modules["_elementtree"] = None  # child interpreters run without the C accelerator when their shard does
+
 import builtins
 import json
 import os
